@@ -158,7 +158,13 @@ func cmdCheck(args []string) {
 		timeout = 30
 		all = true
 	}
-	res := verifyFuncs(p, keys, runOpts{repo: *repo, workdir: wd, timeout: timeout, all: all, maxPaths: *maxPaths})
+	var lemmas []LemmaDecl
+	for _, l := range p.Lemmas {
+		if hasTag(l.Tags, *prop) {
+			lemmas = append(lemmas, l)
+		}
+	}
+	res := verifyFuncs(p, keys, runOpts{repo: *repo, workdir: wd, timeout: timeout, all: all, maxPaths: *maxPaths, lemmas: lemmas})
 
 	known := loadKnownFindings(filepath.Join(*verif, "known_findings.txt"))
 	replayDir := filepath.Join(*verif, "replay", "out")
